@@ -912,6 +912,8 @@ def explore(
         verdict = "violated"
     elif inconclusive or STATS.unknown:
         verdict = "inconclusive"
+        if STATS.unknown:
+            inconclusive.append(f"the solver answered unknown (or was interrupted) on {STATS.unknown} query/queries: those regions are undecided")
     elif outcome_counts.get("ok", 0) == 0 and need_ok:
         verdict = "inconclusive"
         inconclusive.append("no path completed normally: every path was refused/dropped (vacuous)")
